@@ -16,6 +16,15 @@ namespace NV.C18
 
 open NV.Gen.C18
 
+/-! ## widths (regenerated from the source on every run) -/
+
+/-- the widths the model relies on, as the C declarations have them: the run length byte of `line_info` holds
+`runMax`; the stored absolute line (`short`), the `file_info` elements, `parse_node_t.line` and `program_size` are
+all `lineMod` wide.  A change of any of these declarations breaks this obligation. -/
+theorem widths_agree :
+    runMax + 1 = 2 ^ lineInfoLenBits ∧ 2 ^ fileInfoBits = lineMod ∧ 2 ^ nodeLineBits = lineMod ∧
+    2 ^ progSizeBits = lineMod ∧ aProgram ≠ aInitializer := by decide
+
 /-! ## line_roundtrip -/
 
 /-- **line_roundtrip** (stored 16 bits).  For EVERY sequence of emissions `(line, nbytes)` fed to the modelled
